@@ -348,6 +348,42 @@ def rule_e4(chk: Check) -> None:
     chk.require("E4", ci.key, "awaits on connection/future", n, 2, "the client no longer awaits the connection and the response")
 
 
+def rule_e8(chk: Check, R: str = "E8") -> None:
+    """The bound of E4 is `self.timeout`: it bounds nothing when it is None
+    (asyncio.wait_for(x, None) waits for ever).  The library's own long-lived
+    caller, the reverse proxy, takes it from the location table: a location
+    without a `timeout` key must still get a number."""
+    from ..strdom import NoneV
+    from .common import absent_key_values
+
+    chk.rule(R, "a proxy location without a `timeout` key still bounds its upstream fetch: LocationConfig.from_dict passes a number (not None) as timeout on every path with the key absent, and the dataclass default is a number")
+    ci = chk.proj.cls("server.location:LocationConfig")
+    fd = ci.methods.get("from_dict")
+    if fd is None:
+        chk.floor(R, "LocationConfig.from_dict", 0, 1)
+    vals = absent_key_values(chk, fd, "timeout", ("cls", "LocationConfig"), "timeout")
+    fixes_none = any(
+        isinstance(st, (ast.Assign, ast.AnnAssign)) and any(dotted(t) == "self.timeout" for t in (st.targets if isinstance(st, ast.Assign) else [st.target]))
+        for nm_, m in ci.methods.items() if nm_ == "__post_init__" for st in walk(m.node)
+    )
+    bad = [(v, n) for v, n in vals if isinstance(v, NoneV)]
+    ok = not bad or fixes_none
+    if not ok:
+        chk.finding(
+            R, fd.key, "timeout-absent-none",
+            "for a location table without a `timeout` key from_dict passes timeout=None: the proxy's client then awaits the connection and the response with asyncio.wait_for(..., timeout=None), i.e. without any bound - an upstream that never finishes holds the call (and the downstream client) for ever",
+            bad[0][1].where(),
+        )
+    chk.ob(R, f"{fd.key}: timeout is a number when the key is absent", ok, f"{len(vals)} feasible constructor calls", evals=max(1, len(vals)))
+    # the field default (used when from_dict passes nothing)
+    if not vals:
+        dflt = next((st.value for st in ci.node.body if isinstance(st, ast.AnnAssign) and dotted(st.target) == "timeout"), None)
+        okd = dflt is not None and not (isinstance(dflt, ast.Constant) and dflt.value is None)
+        if not okd:
+            chk.finding(R, ci.key, "timeout-default-none", "LocationConfig.timeout has no numeric default and from_dict does not pass one: the upstream fetch is unbounded", ci.node.lineno and f"{ci.module.relpath}:{ci.node.lineno}")
+        chk.ob(R, f"{ci.key}: timeout field default is a number", okd)
+
+
 def _canon(fn: ast.AST) -> str:
     body = [s for s in fn.body if not (isinstance(s, ast.Expr) and isinstance(s.value, ast.Constant))]
     s = norm(ast.Module(body=body, type_ignores=[]))
@@ -416,5 +452,10 @@ def run(chk: Check) -> None:
     rule_e3(chk)
     rule_e4(chk)
     rule_e5_e6(chk)
+    rule_e8(chk)
+    from .c18 import charset_scan_covers_all
+
+    _cp = chk.proj.module("client.protocol")
+    charset_scan_covers_all(chk, "E9", [("client.protocol", list(_cp.functions.values()) + [m for c in _cp.classes.values() for m in c.methods.values()])], "a text body is decoded as UTF-8 although the meta declares another charset")
     chk.trusted = ["CPython ast parser", "engine CFG / abstract evaluator / builtin exception hierarchy", "asyncio calls connection_lost exactly once after the peer closed or after transport.close()"]
     chk.assumptions = ["exceptions outside the three-entry raise-set catalogue are not modelled", "promptness of EOF delivery by asyncio is trusted"]
